@@ -265,12 +265,56 @@ impl<'tcx> Cx<'tcx> {
                         done = true;
                     }
                 }
+                if let Some(a) = self.destructure(v, t, env, 0) {
+                    o.push(("agg", a));
+                    done = true;
+                }
                 if !done {
                     o.push(("opaque", s(format!("{:?}", v))));
                 }
             }
         }
         J::Obj(o)
+    }
+
+    /// Structured view of an aggregate constant (array / tuple / struct / enum), leaves as in const_value.
+    fn destructure(&self, v: ConstValue, t: Ty<'tcx>, env: TypingEnv<'tcx>, depth: usize) -> Option<J> {
+        if depth > 4 {
+            return None;
+        }
+        match t.kind() {
+            ty::Array(..) | ty::Tuple(..) | ty::Adt(..) => {}
+            _ => return None,
+        }
+        if let ty::Adt(def, _) = t.kind() {
+            if def.is_union() {
+                return None;
+            }
+        }
+        let d = self.tcx.try_destructure_mir_constant_for_user_output(v, t)?;
+        let mut fields = Vec::new();
+        for (fv, fty) in d.fields.iter() {
+            let leaf = match self.destructure(*fv, *fty, env, depth + 1) {
+                Some(a) => J::Obj(vec![("ty", self.ty(*fty)), ("agg", a)]),
+                None => self.const_value(*fv, *fty, env),
+            };
+            fields.push(leaf);
+        }
+        let mut o: Vec<(&'static str, J)> = Vec::new();
+        match t.kind() {
+            ty::Array(..) => o.push(("kind", s("array"))),
+            ty::Tuple(..) => o.push(("kind", s("tuple"))),
+            ty::Adt(def, _) => {
+                o.push(("kind", s("adt")));
+                o.push(("adt", s(self.path(def.did()))));
+                let vi = d.variant.unwrap_or(rustc_abi::FIRST_VARIANT);
+                o.push(("variant", s(def.variant(vi).name.to_string())));
+                o.push(("names", J::Arr(def.variant(vi).fields.iter().map(|f| s(f.name.to_string())).collect())));
+            }
+            _ => {}
+        }
+        o.push(("fields", J::Arr(fields)));
+        Some(J::Obj(o))
     }
 
     fn mir_const(&self, c: &mir::ConstOperand<'tcx>, env: TypingEnv<'tcx>) -> J {
